@@ -108,3 +108,41 @@ def all_calls(fx, pred, include_cleanup=False):
         for bi, t in it:
             if pred(t):
                 yield f, bi, t
+
+
+def callers_of(fx, name):
+    """definitions containing a direct call (callee or resolved) to `name`"""
+    out = set()
+    for f in fx.d["fns"]:
+        b = Body(f)
+        for _bi, t in b.normal_calls():
+            if t.get("callee") == name or t.get("resolved") == name:
+                out.add(f["def"])
+    return out
+
+
+def param_sinks(fx, fn_def, arg_index, depth=2):
+    """where the value passed as argument `arg_index` (1-based local) of a crate-local function ends up, looking into
+    the coroutine of an async fn and through further local helpers (bounded)"""
+    from mir import sinks, upvar_sinks, agg_sites
+    f = fx.fn(fn_def)
+    if f is None:
+        return [{"k": "unknown", "fn": fn_def}]
+    b = Body(f)
+    out = []
+    for s in sinks(b, arg_index, into_closures=False):
+        if s["k"] == "agg" and s.get("ak") in ("coroutine", "closure") and fx.fn(s.get("def") or ""):
+            cb = Body(fx.fn(s["def"]))
+            for s2 in upvar_sinks(cb, s["idx"], into_closures=False):
+                out.append(dict(s2, fn=s["def"]))
+        else:
+            out.append(dict(s, fn=fn_def))
+    res = []
+    for s in out:
+        if s["k"] == "call" and depth > 0:
+            c = s["t"].get("resolved") or s["t"].get("callee")
+            if c in fx.fns and fx.fns[c]["kind"] in ("fn", "assoc_fn") and c != "context::StopNotifier::notify":
+                res.extend(param_sinks(fx, c, s["idx"] + 1, depth - 1))
+                continue
+        res.append(s)
+    return res
